@@ -249,6 +249,13 @@ static void run_resid(Json& js, vh::Rng& rng, int a, int b, bool padall) {
             for (int i = 0; i < std::min(n, t); ++i) {
                 rc[i] = xc[i], rr[i] = xr[i];
             }
+            if (t > n + 1) {
+                // an earlier call that padded a LONGER input to the same length must leave nothing behind in the padding
+                const int dl = t - 1;
+                (void)fft(arr_real(dl) + 1.5, t);
+                (void)rfft(arr_real(dl) - 2.5, t);
+                (void)fft(arr_cmplx(dl) + cmplx_t(1, -1), t);
+            }
             const arr_cmplx A = fft(toC(xc), t), B = fft(toC(rc));
             resid(js, "C01.pad", "fft_c", n, t, "gauss", maxdiff_rel(A, B), 64.0 * t * EPS, A.size());
             const arr_cmplx C = fft(toR(xr), t), D = fft(toR(rr));
@@ -424,6 +431,16 @@ static void run_inv(Json& js, vh::Rng& rng, int a, int b) {
         const auto xr = make_input(rng, n, 0, true);
         const arr_real xra = toR(xr);
         const arr_cmplx X = rfft(xra);
+        if (n % 2 == 0) {
+            // a rejected request for the neighbouring odd lengths comes first: it must leave nothing behind
+            for (int odd : {n - 1, n + 1}) {
+                if (odd >= 1) {
+                    const char* orej = vh::outcome([&] { (void)irfft(arr_cmplx(odd) + cmplx_t(1, 0), odd); });
+                    js.begin("Inv").str("api", "irfft_odd").num("n", odd).str("cls", "const").str("o", orej).num("outlen", 0)
+                      .boolean("finite", true).num("err_milli", 0).end();
+                }
+            }
+        }
         for (int form = 0; form < 3; ++form) {
             arr_real y;
             static const char* fn[] = {"irfft_full", "irfft_half", "irfft_auto"};
@@ -547,14 +564,25 @@ static void run_stft(Json& js, vh::Rng& rng, long budget) {
                     // accumulated window weight per output sample, in long double
                     const int nseg = (int)Y.size();
                     const int xlen = nseg > 0 ? nwin + (nseg - 1) * hop : 0;
-                    std::vector<LD> wsum(std::max(0, xlen), 0);
+                    // accumulated weight and accumulated |window| per output sample: a rounding error e of an inverse frame
+                    // comes back as (sum_s |w_s| e) / weight, i.e. amplified by 1/w where a single WOLA segment covers the sample
+                    std::vector<LD> wsum(std::max(0, xlen), 0), asum(std::max(0, xlen), 0);
+                    LD wmax = 0;
                     for (int s = 0; s < nseg; ++s) {
                         for (int i = 0; i < nwin; ++i) {
                             wsum[s * hop + i] += meth ? (LD)win[i] * win[i] : (LD)win[i];
+                            asum[s * hop + i] += meth ? fabsl((LD)win[i]) : 1.0L;
                         }
                     }
+                    for (LD v : wsum) {
+                        wmax = std::max(wmax, fabsl(v));
+                    }
                     bool finite = true;
-                    LD num = 0, den = 0;
+                    LD xms = 0;
+                    for (int i = 0; i < nx; ++i) {
+                        xms += (LD)x[i] * x[i];
+                    }
+                    const double xrms = (double)sqrtl(xms / std::max(1, nx)) + 1e-300;
                     long bins_ok = 1;
                     for (auto& fr : Y) {
                         const int eb = rg == 0 ? nfft / 2 + 1 : nfft;
@@ -563,19 +591,20 @@ static void run_stft(Json& js, vh::Rng& rng, long budget) {
                         }
                     }
                     long wpos = 0;
+                    double err = 0;   // worst sample, in units of its own tolerance
                     for (int i = 0; i < xr.size(); ++i) {
                         finite = finite && std::isfinite(xr[i]);
-                        if (i < xlen && i < nx && fabsl(wsum[i]) > 1e-9L) {
-                            num += (LD)(xr[i] - x[i]) * (xr[i] - x[i]);
-                            den += (LD)x[i] * x[i];
+                        // "non-zero weight": anything above 1e-12 of the largest weight (the library's own guard is nseg * eps)
+                        if (i < xlen && i < nx && fabsl(wsum[i]) > 1e-12L * wmax) {
+                            const double tol = 64.0 * nfft * EPS * xrms * (double)(asum[i] / fabsl(wsum[i]));
+                            err = std::max(err, std::fabs(xr[i] - x[i]) / tol);
                             ++wpos;
                         }
                     }
-                    const double err = den == 0 ? 0 : (double)sqrtl(num / den);
                     js.begin("Stft").num("nfft", nfft).str("win", WN[wk]).boolean("sym", sym).num("overlap", ov).num("method", meth)
                       .num("range", rg).num("nx", nx).str("o", o).num("nseg", nseg).num("bins_ok", bins_ok)
                       .num("outlen", xr.size()).boolean("finite", finite).num("wpos", wpos)
-                      .num("err_milli", milli(err, 64.0 * nfft * EPS * 16)).end();
+                      .num("err_milli", milli(err, 1.0)).end();
                     ++done;
                 }
             }
